@@ -144,6 +144,8 @@ def run(c):
             conn = "cq%d" % i
             steps.append({"op": "connect", "conn": conn, "attr": {"uid": 0, "admin": 1, "dip": "168.63.129.16", "dport": 80}})
         hs = rand_headers(rnd)
+        if blen and rnd.random() < 0.08:
+            hs = hs + [[rnd.choice(["Expect", "expect", "EXPECT"]), rnd.choice(["100-continue", "100-Continue"])]]   # curl/.NET style upload
         if rnd.random() < 0.05:
             # the client sends its own copies of the names the proxy stamps (any letter case): what the host receives under
             # those names is the proxy's value alone, and that is what the MAC covers
